@@ -7,6 +7,8 @@ import FordModel.Escape
 import FordModel.Show
 import FordModel.Lemmas.Escape
 import FordModel.Lemmas.Show
+import FordModel.AttrStmt
+import FordModel.Lemmas.AttrStmt
 import FordModel.Generated.C18
 namespace Ford.C18
 open Ford Ford.Html Ford.Show Ford.Generated.C18
@@ -221,6 +223,172 @@ theorem full_type_text (vt k l : Str) (hk : k ≠ []) (hl : l ≠ []) :
   simp [fullType, hk, hl, joinStr]
 
 example : (declVars "integer :: x(2,3) = [1,2], s*8 = 'a  b\\d'//\"q\"".toList).toOption.map (·.length) = some 2 := by
+  decide
+
+/-! ## attributes given by separate attribute statements
+
+  `intent(in) :: n`, `dimension a(n, *)`, `optional :: flag`, `value w`, `target :: r` ... reach the
+  displayed variable through `attr_dict` and `process_attribs`; the dummy arguments and the
+  function result are *moved out of* `self.variables` by `_cleanup`.  `procCleanupSteps` /
+  `funcCleanupSteps` are the steps of `_cleanup` in the order the source has them, regenerated
+  from ford/sourceform.py on every run (translate/c18.py). -/
+
+open Ford.AttrStmt in
+/-- what one variable receives from its attribute statements, for every list of attributes: each
+    attribute that is not translated into a field of its own (visibility, intent, the dimension of
+    `allocatable x(:)` / `pointer p(:)`, parameter) is among the displayed attributes, the
+    attributes of the type declaration are all kept, name and type are untouched -/
+theorem statement_attrs_displayed (p : List (Str × Str)) (v : DVar) (attrs : List Str) :
+    (∀ a ∈ attrs, isPlainAttr a = true → a ∈ (applyAttrs p v attrs).attribs) ∧
+    (∀ a ∈ v.attribs, a ∈ (applyAttrs p v attrs).attribs) ∧
+    (applyAttrs p v attrs).name = v.name ∧ (applyAttrs p v attrs).ftype = v.ftype :=
+  ⟨fun a ha h => applyAttrs_plain p attrs v a ha h, fun a ha => applyAttrs_attribs_mono p attrs v a ha,
+   (applyAttrs_name p attrs v).1, (applyAttrs_name p attrs v).2.1⟩
+
+open Ford.AttrStmt in
+/-- the intent shown is the one of the (last) INTENT statement that names the variable -/
+theorem statement_intent_displayed (p : List (Str × Str)) (v : DVar) (pre post : List Str) (a : Str)
+    (h : a.take 6 = (chars! "intent")) (hp : ∀ b ∈ post, b.take 6 ≠ (chars! "intent")) :
+    (applyAttrs p v (pre ++ a :: post)).intent = (a.drop 7).dropLast := by
+  have e : pre ++ a :: post = (pre ++ [a]) ++ post := by simp
+  rw [e, applyAttrs_append, applyAttrs_intent_other p post _ hp, applyAttrs_append]
+  simpa [applyAttrs] using applyAttr_intent p (applyAttrs p v pre) a h
+
+open Ford.AttrStmt in
+/-- `process_attribs`, any number of variables and statements: the declaration of a name (the first
+    variable with that name) leaves the loop with *all* the attributes recorded for that name, as
+    long as no procedure / type / interface of the unit has the name (and the loop over those did
+    not raise) -/
+theorem attach_first_declaration (p : List (Str × Str)) (items : List Item) (d : Dict)
+    (vars vars' : List DVar) (key : Str) (hi : key ∉ items.map (·.name))
+    (ha : attach p items d vars = some vars') :
+    firstVar key vars' = (firstVar key vars).map (fun v => applyAttrs p v (lookupAttrs d key)) := by
+  unfold attach at ha
+  cases hc : consumeItems d items with
+  | none => simp [hc] at ha
+  | some d' =>
+    simp only [hc, Option.some.injEq] at ha
+    rw [← ha, firstVar_attachGo, lookup_consumeItems items d d' key hi hc]
+
+open Ford.AttrStmt in
+/-- ... and an attribute other than a visibility or `bind` for an entry of an interface block makes
+    that loop raise (`item.attribs.append` on an object without `attribs`): `optional :: cb` for a
+    dummy procedure `cb` that is described by an interface block - the whole source file is then
+    dropped (finding C18-attribute-statement-on-interface-procedure) -/
+theorem interface_dummy_attribute_raises_witness :
+    let st : PState := ⟨[], [.name (chars! "cb")], none, [chars! "cb"], [⟨chars! "cb", false⟩],
+      some [(chars! "cb", [chars! "optional"])], []⟩
+    runCleanup procStepsSound st = none ∧
+    (runCleanup procStepsSound { st with dict := some [(chars! "cb", [chars! "private"])] }).map (·.args)
+      = some [.proc (chars! "cb")] := by
+  decide
+
+open Ford.AttrStmt in
+/-- **dummy arguments keep the attributes of the attribute statements.**  With the steps of
+    `FortranProcedure._cleanup` *in the order they have in the source*, for every subroutine - any
+    declarations, any attribute statements, any argument list with pairwise distinct names -
+    position `i` of the argument table is the declaration of that argument with everything the
+    attribute statements say about it (excluded: a dummy procedure given the `external`
+    attribute, which FORD removes from the variables).  Matching the arguments before the
+    attributes are attached breaks this obligation. -/
+theorem proc_args_keep_statement_attribs_partial (st : PState) (d d' : Dict) (argNames : List Str)
+    (hd : st.dict = some d) (ha : st.args = argNames.map Slot.name)
+    (hc : consumeItems d st.items = some d') (hn : (argNames.map lower).Nodup) :
+    ∃ st', runCleanup procCleanupSteps st = some st' ∧
+      ∀ (i : Nat) (a : Str) (v : DVar), argNames[i]? = some a → firstVar (lower a) st.vars = some v → lower a ∉ st.items.map (·.name) →
+        isExternal (applyAttrs st.params v (lookupAttrs d (lower a))) = false →
+        st'.args[i]? = some (Slot.var (applyAttrs st.params v (lookupAttrs d (lower a)))) := by
+  have hat : attach st.params st.items d st.vars = some (attachGo st.params d' st.vars) := by
+    simp [attach, hc]
+  simp only [procCleanupSteps, runCleanup, cleanStep, hd, hat]
+  refine ⟨_, rfl, ?_⟩
+  intro i a v h1 h2 h3 h4
+  simp only [ha]
+  exact matchArgs_get argNames hn _ _ i a _ h1 (firstVar_attached _ _ _ _ _ _ _ hat h2 h3 h4)
+
+open Ford.AttrStmt in
+/-- the order of the steps of `FortranFunction._cleanup` is one of the two known ones: the result
+    matched first (as the code is: finding C18-result-attribute-statements-lost) or last
+    (repaired) - in both the attribute statements are processed before the arguments are matched -/
+theorem func_cleanup_order_known :
+    funcCleanupSteps = funcStepsResultFirst ∨ funcCleanupSteps = funcStepsSound := by decide
+
+open Ford.AttrStmt in
+/-- ... and the same for the dummy arguments of every function, with the steps of
+    `FortranFunction._cleanup` in their source order -/
+theorem func_args_keep_statement_attribs_partial (st : PState) (d d' : Dict) (argNames : List Str) (r : Str)
+    (hd : st.dict = some d) (ha : st.args = argNames.map Slot.name) (hr : st.ret = some (.name r))
+    (hc : consumeItems d st.items = some d')
+    (hn : (argNames.map lower).Nodup) (hra : lower r ∉ argNames.map lower) :
+    ∃ st', runCleanup funcCleanupSteps st = some st' ∧
+      ∀ (i : Nat) (a : Str) (v : DVar), argNames[i]? = some a → firstVar (lower a) st.vars = some v → lower a ∉ st.items.map (·.name) →
+        isExternal (applyAttrs st.params v (lookupAttrs d (lower a))) = false →
+        st'.args[i]? = some (Slot.var (applyAttrs st.params v (lookupAttrs d (lower a)))) := by
+  have hat : ∀ vs, attach st.params st.items d vs = some (attachGo st.params d' vs) := by
+    intro vs; simp [attach, hc]
+  rcases func_cleanup_order_known with e | e <;> rw [e]
+  · simp only [funcStepsResultFirst, runCleanup, cleanStep, hd, hr, hat]
+    refine ⟨_, rfl, ?_⟩
+    intro i a v h1 h2 h3 h4
+    simp only [ha]
+    have hne : lower r ≠ lower a := fun e =>
+      hra (e ▸ List.mem_map.mpr ⟨a, List.mem_of_getElem? h1, rfl⟩)
+    have h2' := h2
+    rw [← matchResult_vars_other r (lower a) hne st.vars] at h2'
+    exact matchArgs_get argNames hn _ _ i a _ h1 (firstVar_attached _ _ _ _ _ _ _ (hat _) h2' h3 h4)
+  · simp only [funcStepsSound, runCleanup, cleanStep, hd, hat]
+    refine ⟨_, rfl, ?_⟩
+    intro i a v h1 h2 h3 h4
+    simp only [ha]
+    exact matchArgs_get argNames hn _ _ i a _ h1 (firstVar_attached _ _ _ _ _ _ _ (hat _) h2 h3 h4)
+
+open Ford.AttrStmt in
+/-- the function result keeps the attributes of its attribute statements (`dimension r(3)`,
+    `allocatable :: r`, `target r`) when it is matched *after* the attributes are attached (the
+    repaired order `funcStepsSound`), for every function ... -/
+theorem result_keeps_statement_attribs_partial (st : PState) (d d' : Dict) (argNames : List Str) (r : Str) (v : DVar)
+    (hd : st.dict = some d) (ha : st.args = argNames.map Slot.name) (hr : st.ret = some (.name r))
+    (hc : consumeItems d st.items = some d')
+    (hra : lower r ∉ argNames.map lower) (hv : firstVar (lower r) st.vars = some v)
+    (hi : lower r ∉ st.items.map (·.name))
+    (hx : isExternal (applyAttrs st.params v (lookupAttrs d (lower r))) = false) :
+    ∃ st', runCleanup funcStepsSound st = some st' ∧
+      st'.ret = some (.var (applyAttrs st.params v (lookupAttrs d (lower r)))) := by
+  have hat : attach st.params st.items d st.vars = some (attachGo st.params d' st.vars) := by
+    simp [attach, hc]
+  simp only [funcStepsSound, runCleanup, cleanStep, hd, hr, hat]
+  refine ⟨_, rfl, ?_⟩
+  simp only [ha]
+  apply matchResult_get
+  rw [matchArgs_vars_other argNames (lower r) hra]
+  exact firstVar_attached _ _ _ _ _ _ _ hat hv hi hx
+
+open Ford.AttrStmt in
+/-- ... and loses them when it is matched first, as `FortranFunction._cleanup` does today:
+    `function f() result(r); real r; dimension r(3); target r` is shown as `real`
+    (finding C18-result-attribute-statements-lost); the same state under the repaired order shows
+    `real, dimension(3), target` -/
+theorem result_matched_first_loses_attribs_witness :
+    let r : DVar := ⟨chars! "r", chars! "real", chars! "public", [], false, false, [], [], none⟩
+    let st : PState := ⟨[r], [], some (.name (chars! "r")), [], [],
+      some [(chars! "r", [chars! "dimension(3)", chars! "target"])], []⟩
+    (runCleanup funcStepsResultFirst st).map (·.ret) = some (some (.var r)) ∧
+    (runCleanup funcStepsSound st).map (·.ret) =
+      some (some (.var { r with attribs := [chars! "dimension(3)", chars! "target"] })) := by
+  decide
+
+open Ford.AttrStmt in
+/-- the same for dummy arguments if the argument loop ran before `process_attribs`:
+    `subroutine s(n); integer n; intent(in) :: n; value n` would be shown as `integer :: n` -
+    the attributes are recorded for a name that is no longer among the variables and are dropped
+    with `del self.attr_dict`; in the order of the source they are shown -/
+theorem args_matched_first_lose_attribs_witness :
+    let n : DVar := ⟨chars! "n", chars! "integer", chars! "public", [], false, false, [], [], none⟩
+    let st : PState := ⟨[n], [.name (chars! "N")], none, [], [],
+      some [(chars! "n", [chars! "intent(in)", chars! "value"])], []⟩
+    (runCleanup [.matchArgs, .attribs, .dropExternal] st).map (·.args) = some [.var n] ∧
+    (runCleanup procStepsSound st).map (·.args) =
+      some [.var { n with intent := chars! "in", attribs := [chars! "value"] }] := by
   decide
 
 end Ford.C18
